@@ -1,4 +1,5 @@
 import OntVerif.Model.NeoExec
+import OntVerif.Proofs.NeoVal
 /-!
 # Lemmas for C12: no Go panic / exhausted budget in the executor model (`Model/NeoExec.lean`)
 
@@ -441,6 +442,17 @@ theorem cloneStruct_safe (f : Nat) (h0 : Heap) (r : Ref) (h : Heap) (len : Nat)
 @[simp] theorem opPush0_safe (m : M) : R.safe (opPush0 m) := by
   unfold opPush0; safe_auto
 
+@[simp] theorem readPushLen_safe (m : M) (n : Nat) : R.safe (readPushLen m n) := by
+  unfold readPushLen; safe_auto
+@[simp] theorem callPush_safe (m : M) (n : Nat) : R.safe (callPush m n) := by
+  unfold callPush; safe_auto
+@[simp] theorem jmpCond_safe (m : M) (n : Nat) : R.safe (jmpCond m n) := by
+  unfold jmpCond; safe_auto
+@[simp] theorem seekIf_safe (b : Bool) (o : Int) (p : Nat) : R.safe (seekIf b o p) := by
+  unfold seekIf; safe_auto
+@[simp] theorem rollN_safe (m : M) (n : Nat) : R.safe (rollN m n) := by
+  unfold rollN; safe_auto
+
 @[simp] theorem opPushData_safe (m : M) (n : Nat) : R.safe (opPushData m n) := by
   unfold opPushData; safe_auto
 
@@ -845,5 +857,90 @@ theorem buildRes_safe (h : Heap) (f : Nat) (v : Val) (s : Nat) (hf : MAX_PARAM_L
         · trivial
         · trivial
 
+
+/-! ### `BuildParamToNative` with the sound detector returns on every heap -/
+
+open OntVerif.Proofs.NeoVal in
+theorem serList_no_fuel (rec : List Nat → Val → Nat → Except VErr Bytes) (vs : List Val)
+    (hrec : ∀ v ∈ vs, ∀ p s, rec p v s ≠ .error .fuel) (path : List Nat) (i size : Nat) :
+    serList rec path i vs size ≠ .error .fuel := by
+  induction vs generalizing i size with
+  | nil => unfold serList; nofun
+  | cons v vs ih =>
+    unfold serList
+    have h1 := hrec v (List.mem_cons_self) (i :: path) size
+    cases hr : rec (i :: path) v size with
+    | error e =>
+      simp only
+      intro h; injection h with h; subst h; exact h1 hr
+    | ok o =>
+      simp only
+      have h2 := ih (fun v hv => hrec v (List.mem_cons_of_mem _ hv)) (i + 1) (size + o.length)
+      cases hs : serList rec path (i + 1) vs (size + o.length) with
+      | error e =>
+        simp only
+        intro h; injection h with h; subst h; exact h2 hs
+      | ok os => simp only; nofun
+
+open OntVerif.Proofs.NeoVal in
+theorem natv_sound_no_fuel (perm : Perm) (h : Heap) : ∀ (k : Nat) (v : Val) (f : Nat) (path : List Nat),
+    isSafeVal (safeIter h k) v = true → k + 1 ≤ f → natv .sound perm h f path v ≠ .error .fuel := by
+  intro k
+  induction k with
+  | zero =>
+    intro v f path hs hf
+    cases f with
+    | zero => omega
+    | succ f =>
+      unfold natv
+      split
+      · nofun
+      · cases v with
+        | ref r => simp only [isSafeVal] at hs; rw [safeIter_zero_getD] at hs; cases hs
+        | bytes d => simp only; nofun
+        | bool b => simp only; nofun
+        | int z => simp only; nofun
+  | succ k ih =>
+    intro v f path hs hf
+    cases f with
+    | zero => omega
+    | succ f =>
+      unfold natv
+      split
+      · nofun
+      · cases v with
+        | ref r =>
+          simp only [isSafeVal, safeIter] at hs
+          obtain ⟨o, ho, hk⟩ := safeStep_getD hs
+          simp only [ho]
+          cases o with
+          | arr vs =>
+            simp only
+            have := serList_no_fuel (fun p v _ => natv .sound perm h f p v) vs
+              (fun v hv p s => ih v f p (hk v hv) (by omega)) path 0 0
+            cases hsl : serList (fun p v _ => natv .sound perm h f p v) path 0 vs 0 with
+            | error e => simp only; intro h'; injection h' with h'; subst h'; exact this hsl
+            | ok b => simp only; nofun
+          | struct vs =>
+            simp only
+            exact serList_no_fuel (fun p v _ => natv .sound perm h f p v) vs
+              (fun v hv p s => ih v f p (hk v hv) (by omega)) path 0 0
+          | map es => simp only; nofun
+        | bytes d => simp only; nofun
+        | bool b => simp only; nofun
+        | int z => simp only; nofun
+
+open OntVerif.Proofs.NeoVal in
+/-- with the sound detector `BuildParamToNative` returns on every heap: `|heap| + 2` nested calls are enough -/
+theorem natv_sound_terminates (perm : Perm) (h : Heap) (v : Val) (path : List Nat) :
+    natv .sound perm h (h.length + 2) path v ≠ .error .fuel := by
+  by_cases hc : hasCycle h v = true
+  · unfold natv
+    have : detect .sound perm path h v = true := by simp [detect, detSound, hc]
+    rw [this]; simp
+  · have hs : isSafeVal (safeIter h h.length) v = true := by
+      unfold hasCycle at hc
+      simpa using hc
+    exact natv_sound_no_fuel perm h h.length v _ path hs (by omega)
 
 end OntVerif.Proofs.NeoExec
